@@ -187,7 +187,73 @@ def items(tier):
     # every requested count: grid and random samplers return exactly n rows for n = 1 .. 60 (thorough 150)
     for nm in SCAN:
         out.append({"name": "count-scan|%s" % nm, "scan": nm, "tier": tier, "term": None, "cost": 3})
+    for nm in ROWS:
+        out.append({"name": "domain-rows|%s" % nm, "rows": nm, "tier": tier, "term": None, "cost": 2})
     return out
+
+
+# domain-level grid sampling with SEVERAL parameter rows in one call (the sampler layer passes one row at a time, a user
+# may pass a batch): rows i*n..(i+1)*n-1 are the grid of the domain at parameter row i, i.e. the same point set as a call
+# with row i alone.  Shapes whose grid is deterministic only (no random top-up), so that the two calls are comparable.
+ROWS = {
+    "Tr(SLP)": L.Tr(L.SLP, [L.aff(0, t=1), 0.5]), "Tr2(SQ)": L.Tr(L.SQ, [L.aff(0.2, t=1), L.aff(0, t=-0.5)]),
+    "Tr(I01)": L.Tr(L.I01, [L.aff(0, t=1)]), "Rot(SQ)": L.Rot(L.SQ, L.aff(0, t=1)), "SQ_MOVE": L.SQ_MOVE, "I_MOVE": L.I_MOVE,
+    "dTr(SLP)": L.B(L.Tr(L.SLP, [L.aff(0, t=1), 0.5])), "dTr(C1)": L.B(L.Tr(L.C1, [L.aff(0, t=1), 0.5])), "dC_t": L.B(L.C_MOVE),
+    "dRot(SQ)": L.B(L.Rot(L.SQ, L.aff(0, t=1))),
+}
+
+
+def run_rows(item):
+    res = {"evals": 0, "transitions": 0, "states": [], "outcomes": [], "violations": [], "rejected": 0, "samples": [], "traces": 0}
+    a = ROWS[item["rows"]]
+    bad = {}
+
+    def grid(n, tvals, free=False):
+        if free:       # the library's own random source: a grid with a randomly topped-up part comes out differently
+            torch.manual_seed(123)
+            P = Bd.build_tp(a).sample_grid(n=n, params=Bd.params_points({"t": list(tvals)}))
+        else:
+            with Seam(budget=20000):
+                P = Bd.build_tp(a).sample_grid(n=n, params=Bd.params_points({"t": list(tvals)}))
+        sp_vars = [v for v in P.space.keys() if v != "t"]
+        return P[:, sp_vars].as_tensor.double().numpy()
+
+    def canon(x):
+        x = np.round(np.asarray(x, dtype=np.float64), 5)
+        return x[np.lexsort(x.T[::-1])]
+    for tv in ((0.0, 1.0), (1.0, 0.0), (0.25, 0.5, 1.0), (0.5, 0.5)):
+        for n in (1, 2, 3, 4, 6, 9):
+            st = "%s|t=%s|n=%d" % (item["rows"], tv, n)
+            res["states"].append(st)
+            res["transitions"] += 1
+            try:
+                single = [grid(n, (t,)) for t in tv]
+                again = grid(n, (tv[0],), free=True)
+                if len(single[0]) != n or not np.allclose(canon(single[0]), canon(again), atol=1e-5):
+                    res["rejected"] += 1          # not a deterministic n-point grid (random top-up): not comparable
+                    continue
+                batch = grid(n, tv)
+            except Exception as e:
+                res["rejected"] += 1              # several rows in one domain-level call may be refused
+                continue
+            res["evals"] += len(tv) + 2
+            if len(batch) != n * len(tv):
+                bad.setdefault("C02|domain-rows|count", []).append("%s: %d rows for n=%d and %d parameter rows" % (st, len(batch), n, len(tv)))
+                continue
+            ok = True
+            for i in range(len(tv)):
+                blk = batch[i * n:(i + 1) * n]
+                if not np.allclose(canon(blk), canon(single[i]), atol=2e-5):
+                    bad.setdefault("C02|domain-rows|block", []).append("%s: rows %d..%d are %s, the grid at parameter row %d alone is %s" % (
+                        st, i * n, (i + 1) * n - 1, canon(blk)[:3].tolist(), i, canon(single[i])[:3].tolist()))
+                    ok = False
+                    break
+            if ok:
+                res["outcomes"].append(st)
+    for key, lst in bad.items():
+        res["violations"].append({"key": key + "|" + item["rows"], "what": "%s: %s" % (item["name"], "; ".join(lst[:3])), "detail": {"item": item["name"]}})
+    res["samples"] = [{"rows": item["rows"]}]
+    return res
 
 
 def run_scan(item):
@@ -303,6 +369,8 @@ def ref_sample(t, params, leaf_check):
 def run_item(item):
     if item.get("scan"):
         return run_scan(item)
+    if item.get("rows"):
+        return run_rows(item)
     t, tier = item["term"], item["tier"]
     name = item["name"]
     res = {"evals": 0, "transitions": 0, "states": [], "outcomes": [], "violations": [], "rejected": 0, "samples": [],
